@@ -144,8 +144,16 @@ def generate(repo):
         out.append('(* %s : %s, %d entries *)\nDefinition %s : list float := %s.\n' % (rel, cname, len(items), qname, fmt_list(items)))
     for rel, cname, cty, qname in FLOAT_TABLES_2D:
         rows = find_array2d(src(rel), cname, cty)
-        body = ';\n'.join(fmt_list([coq_float(e, '%s[%d][%d]' % (cname, r, i)) for i, e in enumerate(row)]) for r, row in enumerate(rows))
-        out.append('(* %s : %s, %d rows *)\nDefinition %s : list (list float) := [\n%s\n].\n' % (rel, cname, len(rows), qname, body))
+        # emitted as IEEE-754 bit patterns (Z constants): 4626 float literals in one extracted OCaml module overflow the
+        # OCaml compiler's stack; the model converts the few entries it reads with FloatBits.bits_to_float
+        import struct
+        def bits(e, where):
+            coq_float(e, where)     # validates the literal
+            return '%d' % struct.unpack('<Q', struct.pack('<d', float(e)))[0]
+        for r, row in enumerate(rows):
+            out.append('Definition %s_row%d : list Z := %s%%Z.\n' % (qname, r, fmt_list([bits(e, '%s[%d][%d]' % (cname, r, i)) for i, e in enumerate(row)], 4)))
+        out.append('(* %s : %s, %d rows, binary64 bit patterns *)\nDefinition %s_bits : list (list Z) := [%s].\n' %
+                   (rel, cname, len(rows), qname, '; '.join('%s_row%d' % (qname, r) for r in range(len(rows)))))
     for rel, cname, cty, qname in INT_TABLES:
         elems = find_array(src(rel), cname, cty)
         items = [coq_int(e, '%s[%d]' % (cname, i)) for i, e in enumerate(elems)]
